@@ -741,8 +741,10 @@ C_START = ["global start", "global main_main", "start:", "lui x2, 0x90", "@jal x
 
 def build_c_case(k):
     """a C program compiled by ppci for riscv:rvc (the code generator emits cb_imm11 / cbl_imm11) + start code"""
+    import contextlib
     from ppci.api import cc
-    obj = cc(io.StringIO(C_SOURCES[k]), arch())
+    with contextlib.redirect_stdout(io.StringIO()):          # ppci prints its warnings
+        obj = cc(io.StringIO(C_SOURCES[k]), arch())
     return obj
 
 
